@@ -71,9 +71,6 @@ def one(base, sid, claimed):
             shutil.rmtree(evd, ignore_errors=True)
             mp = os.path.join(d, 'meta.json')
             meta = json.load(open(mp))
-            if 'reported_when_first_run' not in meta:
-                # what the checks said when the change was first confirmed (before any rule was added because of it)
-                meta['reported_when_first_run'] = meta.get('checks_reporting_violation', [])
             nd = needs_from_notes(d)
             if nd:
                 meta['needs_to_manifest'] = nd
